@@ -123,7 +123,7 @@ impl Report {
         let mut fileno = 0;
         for k in &self.kinds {
             let total: usize = self.kinds.iter().map(|k| k.cases.len()).sum();
-            let shard = if self.shard_size == 0 { ((total + 23) / 24).max(8) } else { self.shard_size };
+            let shard = if self.shard_size == 0 { ((total + 47) / 48).max(8) } else { self.shard_size };
             for chunk in k.cases.chunks(shard) {
                 fileno += 1;
                 let name = format!("{}_{}.v", self.prop, fileno);
